@@ -11,6 +11,7 @@ observations are validated by TLC against the model (OciUnifyConcTrace)."""
 import concurrent.futures as cf
 import json
 import os
+import re
 import time
 
 import vlib
@@ -34,6 +35,10 @@ def run_conc(ctx, vh, out, sched=None, n=1, entries='all', part=0, parts=1, repl
 
 def dedupe(ctx, traces, out):
     """Runs with identical recorded text are validated once (validation is a function of the text)."""
+    # the kind of a failing member's error and error messages are not read by the specification
+    # (a failure is a failure): runs that differ only there are validated once, too
+    strip = re.compile(r'"errkind":\[[^\]]*\],?|"msg":"(?:[^"\\]|\\.)*",?')
+    seen = {}
     uniq = {}
     hdr = None
     for t in traces:
@@ -41,7 +46,8 @@ def dedupe(ctx, traces, out):
         hdr = hdr or h
         for s in scen:
             k = '\n'.join(s)
-            uniq[k] = uniq.get(k, 0) + 1
+            rep = seen.setdefault(strip.sub('', k), k)
+            uniq[rep] = uniq.get(rep, 0) + 1
     vlib.write_trace(out, hdr, [k.split('\n') for k in uniq])
     return uniq
 
@@ -152,22 +158,29 @@ def run(ctx):
     ctx.cov['schedules_replayed'] = len(scheds)
     ctx.log('%d of %d exported schedules replayed' % (len(scheds), nall))
     sd = ctx.sub('sched')
-    sp = os.path.join(sd, 'sched.jsonl')
-    with open(sp, 'w') as f:
-        for s in scheds:
-            f.write(json.dumps(s) + '\n')
     # 3. replay on the real code: every schedule x every entry point of its style x {settle, burst}
+    # quick: each schedule once, on one entry point of its style (which one rotates with the schedule and the seed);
+    # thorough: on all entry points, under the race detector, 50 times (8 times for the many schedules that only differ
+    # in where the caller reads)
     td = ctx.sub('traces')
     parts = 4 if quick else min(16, vlib.NCPU)
-    reps = 1 if quick else 50
-    # quick: each schedule on one entry point of its style (which one rotates with the schedule and the seed); thorough: on all
     ent = 'one' if quick else 'all'
-    with cf.ThreadPoolExecutor(max_workers=parts) as ex:
-        futs = [ex.submit(run_conc, ctx, vh, os.path.join(td, 'conc%02d.ndjson' % p), sp, reps, ent, p, parts, None, None,
-                          None if quick else os.path.join(td, 'race')) for p in range(parts)]
-        nruns = sum(f.result()['scenarios'] for f in futs)
-    traces = [os.path.join(td, 'conc%02d.ndjson' % p) for p in range(parts)]
-    expect = sum((1 if quick else ENTRIES[s['style']]) * 2 for s in scheds) * reps
+    isread = lambda s: bool({'read', 'readpart'} & set(s['acts']))
+    groups = [('a', scheds, 1)] if quick else [('a', [s for s in scheds if not isread(s)], 50), ('b', [s for s in scheds if isread(s)], 8)]
+    traces = []
+    nruns = expect = 0
+    for name, group, reps in groups:
+        sp = os.path.join(sd, 'sched_%s.jsonl' % name)
+        with open(sp, 'w') as f:
+            for s in group:
+                f.write(json.dumps(s) + '\n')
+        outs = [os.path.join(td, 'conc_%s%02d.ndjson' % (name, p)) for p in range(parts)]
+        with cf.ThreadPoolExecutor(max_workers=parts) as ex:
+            futs = [ex.submit(run_conc, ctx, vh, outs[p], sp, reps, ent, p, parts, None, None,
+                              None if quick else os.path.join(td, 'race')) for p in range(parts)]
+            nruns += sum(f.result()['scenarios'] for f in futs)
+        traces += outs
+        expect += sum((1 if quick else ENTRIES[s['style']]) * 2 for s in group) * reps
     ctx.log('executed %d runs on the real code' % nruns)
     if nruns != expect:
         raise vlib.Machinery('harness executed %d of %d runs' % (nruns, expect))
